@@ -19,7 +19,8 @@ func run(c *core.C) {
 	}
 	ksim.RunParts(c, parts, [][]ksim.Op{
 		{{K: "rec", A: []int{2, 5}}, {K: "rec", A: []int{2, 5}}},
-		{{K: "upg", A: []int{24, 0, 0}}, {K: "upg", A: []int{24, 0, 0}}},
+		{{K: "upg", A: []int{28, 0, 0}}, {K: "upg", A: []int{28, 0, 0}}},
+		{{K: "rec", A: []int{12, 5}}, {K: "rec", A: []int{2, 14}}},
 	})
 	c.Set("alphabet", "rec(i,j) = MsgRecoverClient signed by the gov authority for every ordered pair (subject i, substitute j) of the population | upg(i,plan,request) = MsgUpgradeClient for every upgrade subject with each request shape of its own plan, and the exact request of plan 0 against every client")
 	c.Set("population", full.Population())
